@@ -148,7 +148,7 @@ func init() {
 		ID: "C17", Level: "fault_enumeration",
 		Rule: "workloads in which the broker model pushes tagged messages right behind every CONNACK (same buffer), mid-connection and before cuts, while the handler is registered before Connect, after Connect, replaced between reconnects or set to nil; Active callback slowed down in one workload, PUBREL of an inbound QoS 2 message withheld while the handler is registered/replaced, and a storm of Handle calls (with the stats lock kept read-held) across reconnects; single cuts, sampled pairs, random plans. " +
 			"Oracle: every inbound QoS 0/1 PUBLISH (and QoS 2 PUBLISH+PUBREL on one connection) fully consumed by the client while handler h was registered (no Handle call in flight) is handed to h exactly once; when handler numbers only grow, the interval-free rule L <= h <= U of DESIGN.md (C17) is used instead. Non-trivial: inbound messages checked on >=2 connections of a run.",
-		Assumptions: []string{"release of an inbound QoS 2 message whose PUBLISH arrived on an earlier connection is not asserted", "the last packet consumed on a connection is not judged (its handler may still be running)"},
+		Assumptions: []string{"release of an inbound QoS 2 message whose PUBLISH arrived on an earlier connection is not asserted", "handler entries are recorded when the handler is entered and the analysis runs after tear-down, so the last packet consumed on a connection is judged like any other"},
 		Gen: func(tier string, seed int64) []fw.Case {
 			return genRetry(retrySpec{
 				Workloads:   []string{"in1", "in2", "in3", "in4", "in5", "in6", "in7", "in8"},
